@@ -30,9 +30,37 @@ type Case struct {
 }
 
 type routeApp struct {
-	app *fiber.App
-	hit bool
-	got []string
+	app    *fiber.App
+	hit    bool
+	got    []string
+	byName string // "" or a description of a value that differs when it is read by its documented name
+}
+
+// docNames lists the documented names of the pattern's parameters in order: the name behind ':' and "*1", "*2", ... /
+// "+1", "+2", ... for the wildcards (escaped characters are literals)
+func docNames(pattern string) []string {
+	var out []string
+	star, plus := 0, 0
+	for i := 0; i < len(pattern); i++ {
+		switch pattern[i] {
+		case '\\':
+			i++
+		case '*':
+			star++
+			out = append(out, fmt.Sprintf("*%d", star))
+		case '+':
+			plus++
+			out = append(out, fmt.Sprintf("+%d", plus))
+		case ':':
+			j := i + 1
+			for j < len(pattern) && (pattern[j] == '_' || pattern[j] >= '0' && pattern[j] <= '9' || pattern[j] >= 'a' && pattern[j] <= 'z' || pattern[j] >= 'A' && pattern[j] <= 'Z') {
+				j++
+			}
+			out = append(out, pattern[i+1:j])
+			i = j - 1
+		}
+	}
+	return out
 }
 
 func newRouteApp(cfg fiber.Config, pattern string) (ra *routeApp, err error) {
@@ -42,11 +70,28 @@ func newRouteApp(cfg fiber.Config, pattern string) (ra *routeApp, err error) {
 		}
 	}()
 	ra = &routeApp{app: fiber.New(cfg)}
+	names := docNames(pattern)
 	ra.app.Get(pattern, func(c fiber.Ctx) error {
 		ra.hit = true
 		ra.got = ra.got[:0]
 		for _, n := range c.Route().Params {
 			ra.got = append(ra.got, strings.Clone(c.Params(n)))
+		}
+		// the same values read by their documented names (the first wildcard of a kind also answers to the bare character)
+		ra.byName = ""
+		for i, n := range names {
+			if i >= len(ra.got) {
+				break
+			}
+			alt := []string{n}
+			if n == "*1" || n == "+1" {
+				alt = append(alt, n[:1])
+			}
+			for _, name := range alt {
+				if v := c.Params(name); v != ra.got[i] {
+					ra.byName = fmt.Sprintf("Params(%q) = %q, the value of that parameter is %q", name, v, ra.got[i])
+				}
+			}
 		}
 		return nil
 	})
@@ -92,6 +137,9 @@ func checkOn(ra *routeApp, c Case) vk.Verdict {
 	v := vk.Verdict{Classes: []string{"variant:" + c.Variant}}
 	if c.Slashless {
 		v.Classes = append(v.Classes, "slash-less literal text behind a greedy parameter (C03-d shape)")
+	}
+	if ra.hit && ra.byName != "" {
+		return vk.Failf("pattern %q (cs=%v strict=%v unesc=%v) path %q: %s", c.Pattern, c.CS, c.Strict, c.Unesc, c.Path, ra.byName)
 	}
 	if c.Expect == "match" {
 		if !ra.hit {
